@@ -803,15 +803,53 @@ struct World
       if (type_size(v.type) == 4)
         SIM_CHECK(fcppt::endianness::swap(static_cast<std::uint32_t>(bits)) == __builtin_bswap32(static_cast<std::uint32_t>(bits)), "swap-value", "u32");
     }
+    // the text round trips run with allocation failures enabled (`alloc:k`: the k-th allocation of
+    // this operation throws): a conversion hit by one reports it (bad_alloc, or nothing from
+    // extract) or returns the complete text - and the conversions after it are not affected
+    struct AllocOn
+    {
+      AllocOn() { sim::fault::st().alloc_off = false; }
+      ~AllocOn() { sim::fault::st().alloc_off = true; }
+    } alloc_on;
     for (unsigned k = 0; k < 4; ++k)
     {
       long long const x = static_cast<long long>(r.next());
       int const y = static_cast<int>(r.next());
+      std::string const want_x = std::to_string(x);
+      std::string const want_y = std::to_string(y);
+      bool const fired_before = sim::fault::fired(sim::fault::alloc);
+      try
+      {
+        std::string sx;
+        std::wstring sy;
+        {
+          sim::fault::Sut s;
+          sx = fcppt::output_to_std_string(x);
+          sy = fcppt::output_to_std_wstring(y);
+        }
+        SIM_CHECK(sx == want_x, sx.size() < want_x.size() && want_x.compare(0, sx.size(), sx) == 0 ? "silent-truncation" : "string-roundtrip", "output_to_std_string(" + want_x + ") returned '" + sx + "'" + (sim::fault::fired(sim::fault::alloc) ? " (an allocation failure was injected and not reported)" : ""));
+        SIM_CHECK(sy == std::wstring(want_y.begin(), want_y.end()), sy.size() < want_y.size() ? "silent-truncation" : "string-roundtrip", "output_to_std_wstring(" + want_y + ") returned " + std::to_string(sy.size()) + " characters" + (sim::fault::fired(sim::fault::alloc) ? " (an allocation failure was injected and not reported)" : ""));
+        bool const clean = fired_before || !sim::fault::fired(sim::fault::alloc);
+        fcppt::optional::object<long long> a;
+        fcppt::optional::object<int> b;
+        {
+          sim::fault::Sut s;
+          a = fcppt::extract_from_string<long long>(sx);
+          b = fcppt::extract_from_string<int>(sy);
+        }
+        bool const clean_after = fired_before || !sim::fault::fired(sim::fault::alloc);
+        // a value, if any, is the right one; without a fault there must be a value
+        SIM_CHECK(!a.has_value() || a.get_unsafe() == x, "string-roundtrip", "long long " + want_x);
+        SIM_CHECK(!b.has_value() || b.get_unsafe() == y, "string-roundtrip", "int via wstring " + want_y);
+        if (clean && clean_after)
+          SIM_CHECK(a.has_value() && b.has_value(), "string-roundtrip", "extract_from_string failed on '" + want_x + "' / '" + want_y + "' without any injected fault" + (fired_before ? " (an EARLIER conversion of this history was hit by an allocation failure)" : ""));
+      }
+      catch (std::bad_alloc const &)
+      {
+        SIM_CHECK(sim::fault::fired(sim::fault::alloc), "undocumented-exception", "bad_alloc without an injected failure");
+        ctx.probe("text_conversion_reported_bad_alloc");
+      }
       sim::fault::Sut s;
-      auto a = fcppt::extract_from_string<long long>(fcppt::output_to_std_string(x));
-      SIM_CHECK(a.has_value() && a.get_unsafe() == x, "string-roundtrip", "long long " + std::to_string(x));
-      auto b = fcppt::extract_from_string<int>(fcppt::output_to_std_wstring(y));
-      SIM_CHECK(b.has_value() && b.get_unsafe() == y, "string-roundtrip", "int via wstring " + std::to_string(y));
       color const c = static_cast<color>(r.below(5));
       auto e = fcppt::enum_::from_string<color>(std::string{fcppt::enum_::to_string(c)});
       SIM_CHECK(e.has_value() && e.get_unsafe() == c, "enum-roundtrip", "to_string/from_string");
@@ -821,6 +859,7 @@ struct World
 
   void run(sim::Plan const &plan)
   {
+    sim::fault::st().alloc_off = true; // allocation failures only where a scenario turns them on
     unsigned effective = 0;
     for (sim::Op const &op : plan.ops)
     {
@@ -951,7 +990,11 @@ void generate(sim::Rng &rng, sim::Plan &p, bool)
       }
     }
     else
+    {
       op = sim::Op("pure").set("vs", vs);
+      if (faulty && rng.chance(1, 2))
+        op.sets("fault", "alloc:" + std::to_string(rng.range(1, 10)));
+    }
     p.ops.push_back(op);
     // stream input of malformed names and io::narrow_string ride along with every plan
     if (rng.chance(1, 3))
